@@ -169,39 +169,56 @@ def spanDigits : Str → List Nat × Str
     | some d => let (ds, r) := spanDigits cs; (d :: ds, r)
     | none => ([], c :: cs)
 
+/-- optional `.MM` -/
+def takeMinutes (t : Str) : Option (Option Nat × Str) :=
+  match t with
+  | '.' :: r => match takeNum 2 0 r with
+    | some (m, r) => some (some m, r)
+    | none => none
+  | r => some (none, r)
+
+/-- optional `:name` up to the end -/
+def offName (sign : Option Bool) (ds : List Nat) (m : Option Nat) (t : Str) : Option OffText :=
+  match t with
+  | [] => some ⟨sign, ds, m, none⟩
+  | ':' :: n => some ⟨sign, ds, m, some n⟩
+  | _ => none
+
+def parseOffBody (sign : Option Bool) (t : Str) : Option OffText :=
+  match takeMinutes (spanDigits t).2 with
+  | none => none
+  | some (m, t') => offName sign (spanDigits t).1 m t'
+
 /-- the text between `[` and the closing `]` -/
 def parseOff (t : Str) : Option OffText :=
-  let (sign, t) : Option Bool × Str := match t with
-    | '-' :: r => (some true, r)
-    | '+' :: r => (some false, r)
-    | r => (none, r)
-  let (ds, t) := spanDigits t
-  let mt : Option (Option Nat × Str) := match t with
-    | '.' :: r => (takeNum 2 0 r).map (fun (m, r) => (some m, r))
-    | r => some (none, r)
-  match mt with
-  | none => none
-  | some (m, t) =>
-    match t with
-    | [] => some ⟨sign, ds, m, none⟩
-    | ':' :: n => some ⟨sign, ds, m, some n⟩
+  match t with
+  | '-' :: r => parseOffBody (some true) r
+  | '+' :: r => parseOffBody (some false) r
+  | r => parseOffBody none r
+
+/-- optional `.XXX` -/
+def takeMs (t : Str) : Option (Option Nat × Str) :=
+  match t with
+  | '.' :: r => match takeNum 3 0 r with
+    | some (m, r) => some (some m, r)
+    | none => none
+  | r => some (none, r)
+
+/-- optional `[ … ]` up to the end -/
+def takeOff (t : Str) : Option (Option OffText) :=
+  match t with
+  | [] => some none
+  | '[' :: r =>
+    match r.reverse with
+    | ']' :: b => (parseOff b.reverse).map some
     | _ => none
+  | _ => none
 
 /-- after the seconds: `(.XXX)? ([ … ])?` -/
 def parseTail (t : Str) : Option (Option Nat × Option OffText) :=
-  let mt : Option (Option Nat × Str) := match t with
-    | '.' :: r => (takeNum 3 0 r).map (fun (m, r) => (some m, r))
-    | r => some (none, r)
-  match mt with
+  match takeMs t with
   | none => none
-  | some (ms, t) =>
-    match t with
-    | [] => some (ms, none)
-    | '[' :: r =>
-      match r.reverse with
-      | ']' :: b => (parseOff b.reverse).map (fun o => (ms, some o))
-      | _ => none
-    | _ => none
+  | some (ms, t') => (takeOff t').map (fun off => (ms, off))
 
 def parseTod (t : Str) : Option ((Nat × Nat × Nat) × Str) := do
   let (h, t) ← takeNum 2 0 t
